@@ -174,13 +174,16 @@ def expand_procedures(func: ast.FunctionDef, resolver, depth: int = 0) -> ast.Fu
 class Flow:
     def __init__(self, func: ast.FunctionDef, file: str = "", consts: dict | None = None,
                  self_name: str | None = None, keep_arms: bool = False, resolver=None, _depth: int = 0, _env: dict | None = None,
-                 proc_resolver=None, func_resolver=None, raise_arms: bool = False):
+                 proc_resolver=None, func_resolver=None, raise_arms: bool = False, inline_loops: bool = False, _uid=None):
         # proc_resolver: name -> FunctionDef of a helper PROCEDURE of the same class, expanded in place as statements
         # func_resolver: name -> FunctionDef of a small pure MODULE-LEVEL helper function called by its bare name (inlined)
         # raise_arms: an inlined helper's `raise` paths become ("raise", exc) leaves of the phi value (a dispatch chain moved into a
         #             helper keeps its refusing arms); without it a helper that can raise stays an opaque call
         self.func_resolver = func_resolver
         self.raise_arms = raise_arms
+        # inline_loops: helper methods that contain loops are inlined too (opt-in): a local they re-bind in a loop is the same
+        # ("carried", name, loop) it would be had the loop stood in the caller; the loop / variable ids are drawn from one counter
+        self.inline_loops = inline_loops
         if proc_resolver is not None and _depth == 0:
             func = expand_procedures(func, proc_resolver)
         self.keep_arms = keep_arms
@@ -193,7 +196,7 @@ class Flow:
         self.facts: list[Fact] = []
         self.loops: list[Loop] = []
         self.guards: list = []
-        self._uid = itertools.count(1)
+        self._uid = _uid if _uid is not None else itertools.count(1)
         self._seq = itertools.count(1)
         self.all_loops: dict = {}
         self.assigns: dict = {}
@@ -620,7 +623,8 @@ class Flow:
         """Value returned by a small, loop-free helper method for these argument values (phi over its returns).  Instance, class
         and static methods (bare=True: a module-level function, no receiver); positional and keyword arguments; defaults."""
         kws = kws or {}
-        if any(isinstance(n, (ast.For, ast.While, ast.Try, ast.With, ast.Yield)) for n in ast.walk(callee)):
+        refused = (ast.Try, ast.With, ast.Yield) + (() if self.inline_loops else (ast.For, ast.While))
+        if any(isinstance(n, refused) for n in ast.walk(callee)):
             return None
         params = [p.arg for p in callee.args.args]
         decs = {ast.unparse(d) for d in callee.decorator_list}
@@ -645,7 +649,7 @@ class Flow:
                 if preset[p_] is None:
                     return None
         sub = Flow(callee, self.file, keep_arms=False, resolver=self.resolver, _depth=self._depth + 1, _env=preset, consts=self.consts,
-                   func_resolver=self.func_resolver, raise_arms=self.raise_arms)
+                   func_resolver=self.func_resolver, raise_arms=self.raise_arms, inline_loops=self.inline_loops, _uid=self._uid if self.inline_loops else None)
         rets = [(f.value if f.kind == "return" else ("raise", f.value if f.value is not None else ("const", None)), list(f.guards))
                 for f in sub.facts if f.kind == "return" or (f.kind == "raise" and self.raise_arms)]
         if not any(f.kind == "return" for f in sub.facts) or any(f.kind in ("store", "augstore", "attrstore", "append", "mutate") for f in sub.facts):
@@ -828,7 +832,11 @@ class Flow:
                 if f.attr in ("extend", "update", "insert", "pop", "clear", "sort", "reverse"):
                     self.fact("mutate", name, None, f.attr, args[0] if args else None, s, args=args)
                     if name not in self.acc:
-                        self.env[name] = ("mutated", self.env[name], f.attr, args)
+                        if f.attr == "sort" and not args and all(k in ("key", "reverse") for k, _ in kws):
+                            # the VALUE of a list after `L.sort(key=K)` is `sorted(L, key=K)` (the same stable sort)
+                            self.env[name] = ("call", ("global", "sorted"), (self.env[name],), kws)
+                        else:
+                            self.env[name] = ("mutated", self.env[name], f.attr, args)
                     return
             self.fact("call", f.attr, None, None, ("meth", self.ev(f.value), f.attr, args, kws), s)
             return
@@ -1348,6 +1356,29 @@ def simp(v):
         # getattr(x, "name") is x.name
         if fn == "getattr" and len(args) == 2 and args[1][0] == "const" and isinstance(args[1][1], str) and args[1][1].isidentifier():
             return ("attr", args[0], args[1][1])
+    # map(f, S) / filter(p, S) with f, p a lambda (or a nested one-return def), operator.attrgetter("a") / itemgetter(i):
+    # the generator expressions (f(x) for x in S) / (x for x in S if p(x)) they are equal to
+    if k == "call" and v[1] in (("global", "map"), ("global", "filter")) and len(v[2]) == 2 and not v[3]:
+        f, S = v[2]
+        bv = ("bv", "_m", next(_fresh))
+        body = None
+        if f[0] == "lambda" and len(f[1]) == 1:
+            body = simp(subst(f[2], {f[1][0]: bv}))
+        elif (f[0] == "call" and f[1] in (("global", "attrgetter"), ("global", "itemgetter")) and len(f[2]) == 1 and not f[3]) or \
+                (f[0] == "meth" and f[1] == ("global", "operator") and f[2] in ("attrgetter", "itemgetter") and len(f[3]) == 1 and not f[4]):
+            which = f[1][1] if f[0] == "call" else f[2]
+            arg = (f[2] if f[0] == "call" else f[3])[0]
+            if which == "attrgetter" and arg[0] == "const" and isinstance(arg[1], str) and arg[1].isidentifier():
+                body = ("attr", bv, arg[1])
+            elif which == "itemgetter" and arg[0] == "const":
+                body = simp(("sub", bv, arg))
+        if body is not None:
+            if v[1][1] == "map":
+                return ("comp", "gen", body, ((bv, S, ()),))
+            return ("comp", "gen", bv, ((bv, S, (body,)),))
+    # list(<generator expression>) is the list comprehension (as Flow.e_Call reads it when the argument is written as one)
+    if k == "call" and v[1] in (("global", "list"), ("global", "tuple")) and len(v[2]) == 1 and not v[3] and v[2][0][0] == "comp" and v[2][0][1] in ("gen", "list"):
+        return ("comp", "list") + tuple(v[2][0][2:])
     # functools.reduce(lambda acc, x: body, <display of known elements>, init) is the left fold written out:
     # body[acc:=body[acc:=init, x:=e1], x:=e2] ...   (e.g. a chain of str.replace driven by a table of pairs)
     if k == "call" and v[1] in (("global", "reduce"), ("attr", ("global", "functools"), "reduce")) and len(v[2]) == 3 and not v[3] \
@@ -1448,6 +1479,33 @@ def simp(v):
             if c_[0] in ("phi", "ifexp") and len(c_) == 4 and not any(x in bound for x in walk(c_[1])):
                 arm = lambda w: simp(("comp", v[1], v[2], ((tg, it, tuple(ifs[:i_]) + (w,) + tuple(ifs[i_ + 1:])),)))
                 return ("phi", c_[1], arm(c_[2]), arm(c_[3]))
+    # decorate-sort-undecorate:  [t[k] for t in sorted(T(x) for x in S)]  with T(x) a tuple display whose k-th component is x itself
+    # ==  sorted(S, key=lambda x: T(x))   (the same tuples are compared in the same order; both sorts are stable)
+    if k == "comp" and v[1] == "list" and len(v[3]) == 1 and not v[3][0][2] and v[3][0][0] is not None:
+        tg, it, _ = v[3][0]
+        if it[0] == "call" and it[1] == ("global", "sorted") and len(it[2]) == 1 and not it[3] and it[2][0][0] == "comp" and it[2][0][1] in ("list", "gen") \
+                and len(it[2][0][3]) == 1:
+            inner = it[2][0]
+            x, src, ifs = inner[3][0]
+            T = inner[2]
+            if x is not None and x[0] == "bv" and T[0] == "tuple" and T[1] and not any(e[0] == "star" for e in T[1]):
+                n_ = len(T[1])
+                pick = None
+                if tg[0] == "tuple" and len(tg[1]) == n_ and v[2] in tg[1] and tg[1].count(v[2]) == 1:
+                    pick = tg[1].index(v[2])
+                elif tg[0] == "bv" and v[2][0] == "sub" and v[2][1] == tg:
+                    i_ = v[2][2]
+                    i_ = i_[1] if i_[0] == "const" else -i_[2][1] if i_[:2] == ("unop", "USub") and i_[2][0] == "const" and type(i_[2][1]) is int else None
+                    if type(i_) is int and -n_ <= i_ < n_:
+                        pick = i_ % n_
+                if pick is not None and T[1][pick] == x:
+                    seq = src if not ifs else ("comp", "list", x, ((x, src, ifs),))
+                    return ("call", ("global", "sorted"), (seq,), (("key", ("lambda", (x,), T)),))
+    if k == "sub" and v[1][0] == "dict" and v[2][0] == "const" and v[1][1] and all(len(e) == 2 and e[0][0] == "const" for e in v[1][1]):
+        # {"a": x, "b": y}["a"] is x (a literal table read back by a literal key)
+        hits = [val for key, val in v[1][1] if key == v[2]]
+        if len(hits) == 1:
+            return hits[0]
     if k == "sub":
         base, idx = v[1], v[2]
         if base[0] in ("list", "tuple") and idx[0] == "const" and isinstance(idx[1], int) \
@@ -1651,11 +1709,31 @@ def expand_dict_loops(f):
     """A fact inside `for k, v in {literal dict}.items():` stands for one fact per entry of the dict: -> [(index, value)] with the
     loop's key / value replaced by each entry's (and re-simplified, so f"list_of_{k}" becomes a constant).  A fact in no such loop
     -> [(f.index, f.value)]."""
+    def entries(d):
+        return list(d[1]) if d[0] == "dict" and d[1] and all(len(e) == 2 and e[0][0] == "const" for e in d[1]) else None
+
+    def items_of(it):
+        """[(key, value)] of `{..}.items()`, or of several such tables one after the other: `chain(a.items(), b.items())`"""
+        if it[0] == "meth" and it[2] == "items" and not it[3]:
+            return entries(it[1])
+        args = it[2] if it[0] == "call" and it[1] == ("global", "chain") and not it[3] else \
+            it[3] if it[0] == "meth" and it[1] == ("global", "itertools") and it[2] == "chain" and not it[4] else None
+        if args:
+            parts = [items_of(a) for a in args]
+            return None if any(p_ is None for p_ in parts) else [e for p_ in parts for e in p_]
+        return None
     rows = [{}]
     for lp in f.loops:
         it = lp.iter
-        if it[0] == "meth" and it[2] == "items" and not it[3] and it[1][0] == "dict" and it[1][1] and all(k[0] == "const" for k, _ in it[1][1]):
-            rows = [{**r, ("key", it[1], lp.id): k, ("val", it[1], lp.id): v} for r in rows for k, v in it[1][1]]
+        ents = items_of(it)
+        if not ents:
+            continue
+        if it[0] == "meth" and it[2] == "items":
+            rows = [{**r, ("key", it[1], lp.id): k, ("val", it[1], lp.id): v} for r in rows for k, v in ents]
+        else:
+            # `for k, v in chain(..)`: the targets are the two components of the element
+            el = ("elem", it, lp.id)
+            rows = [{**r, ("item", el, 0): k, ("item", el, 1): v} for r in rows for k, v in ents]
     return [(simp(subst(f.index, r)) if f.index is not None else None, simp(subst(f.value, r)) if f.value is not None else None) for r in rows]
 
 
@@ -1874,7 +1952,13 @@ def _unbool(c):
 
 def _bool_atoms(c, acc):
     c = _unbool(c)
-    if isinstance(c, tuple) and len(c) == 3 and c[0] == "unop" and c[1] == "Not":
+    if isinstance(c, tuple) and len(c) == 4 and c[0] in ("phi", "ifexp"):
+        # a predicate helper inlined as its decision tree (`if c: return a` / `return b`): (c and a) or (not c and b)
+        for x in c[1:]:
+            _bool_atoms(x, acc)
+    elif isinstance(c, tuple) and len(c) == 2 and c[0] == "const" and isinstance(c[1], bool):
+        pass
+    elif isinstance(c, tuple) and len(c) == 3 and c[0] == "unop" and c[1] == "Not":
         _bool_atoms(c[2], acc)
     elif isinstance(c, tuple) and len(c) == 3 and c[0] == "bool":
         for x in c[2]:
@@ -1887,6 +1971,10 @@ def _bool_atoms(c, acc):
 
 def _bool_eval(c, env):
     c = _unbool(c)
+    if isinstance(c, tuple) and len(c) == 4 and c[0] in ("phi", "ifexp"):
+        return _bool_eval(c[2], env) if _bool_eval(c[1], env) else _bool_eval(c[3], env)
+    if isinstance(c, tuple) and len(c) == 2 and c[0] == "const" and isinstance(c[1], bool):
+        return c[1]
     if isinstance(c, tuple) and len(c) == 3 and c[0] == "unop" and c[1] == "Not":
         return not _bool_eval(c[2], env)
     if isinstance(c, tuple) and len(c) == 3 and c[0] == "bool":
